@@ -18,9 +18,17 @@ import (
 	"strings"
 )
 
+// repoRoot is /repo unless VERIF_REPO names another checkout (used to try seeded changes in a scratch worktree).
+func repoRoot() string {
+	if r := os.Getenv("VERIF_REPO"); r != "" {
+		return r
+	}
+	return "/repo"
+}
+
 func modDir(spec string) (string, error) {
 	// spec = @module/sub/dir ; find the longest module prefix listed in /repo/go.mod
-	b, err := os.ReadFile("/repo/go.mod")
+	b, err := os.ReadFile(filepath.Join(repoRoot(), "go.mod"))
 	if err != nil {
 		return "", err
 	}
@@ -208,7 +216,7 @@ func main() {
 				continue
 			}
 		} else {
-			dir = filepath.Join("/repo", dir)
+			dir = filepath.Join(repoRoot(), dir)
 		}
 		c, err := load(dir)
 		if err != nil {
